@@ -2,7 +2,7 @@ SPECIFICATION ESpec
 CONSTANTS
   Variant = "fixed"
   ShapeNames = {"req", "def", "opt", "alias", "aliasreq", "ci", "cidef", "noin", "noinreq", "noout", "moder", "modew", "defer"}
-  PairShapes = {"alias", "ci", "dep", "noin"}
+  PairShapes = {"alias", "ci", "dep"}
   MaxSettings = 2
   MaxLen = 2
   MaxLen2 = 2
